@@ -246,6 +246,17 @@ pub fn check(c: &Case, stats: &mut Stats) -> CheckResult {
     let empty = Diff::default();
     let self_diff = observed_diff(&o2, &o2)?;
     ensure!(self_diff == empty, "compare/self-not-empty", "compare(o,o) reports {self_diff:?}");
+    if m1.is_empty() || m2.is_empty() {
+        stats.label("ontology-without-terms");
+    }
+    if !(m2.has(1) && m2.has(118)) {
+        // (the binary loader needs both default roots; nothing to round-trip)
+        if want != empty {
+            stats.label("nontrivial");
+            stats.nontrivial(hash_json(c));
+        }
+        return Ok(());
+    }
     let rt = roundtrip(&o2).map_err(|e| Failure { signature: "construct/roundtrip".into(), message: e })?;
     let rt_diff = observed_diff(&o2, &rt)?;
     // the binary format stores 255 bytes of a term name / gene symbol: longer names (text path) come
@@ -558,8 +569,56 @@ fn wide_record_strategy() -> BoxedStrategy<Case> {
         .boxed()
 }
 
+/// One side, or both, has no terms at all but carries records (an ontology the Builder makes from add_gene /
+/// add_*_disease calls alone): "empty" is a statement about terms, not about genes and diseases.
+fn termless_strategy() -> BoxedStrategy<Case> {
+    let cfg = GenCfg::small().terms(2, 6).recs(3).standard().names(NameMode::Plain);
+    (gen::facts(cfg), vec((0usize..3, 0u8..4, name_strategy(NameMode::Plain)), 0..5), 0u8..4)
+        .prop_map(|(mut full, script, which)| {
+            let mut bare = Facts { version: full.version, ..Default::default() };
+            for k in 0..3 {
+                for r in &full.recs[k] {
+                    bare.recs[k].push(RecFact { id: r.id, name: r.name.clone(), terms: vec![] });
+                }
+            }
+            let mut edited = bare.clone();
+            let mut edits = vec!["ontology-without-terms".to_string()];
+            for (k, what, name) in script {
+                match what {
+                    0 if !edited.recs[k].is_empty() && edited.recs[k][0].name != name => {
+                        edited.recs[k][0].name = name;
+                        edits.push("rename-record".into());
+                    }
+                    1 if !edited.recs[k].is_empty() => {
+                        edited.recs[k].pop();
+                        edits.push("remove-record".into());
+                    }
+                    2 => {
+                        let id = 900 + edited.recs[k].len() as u32;
+                        if !edited.recs[k].iter().any(|r| r.id == id) {
+                            edited.recs[k].push(RecFact { id, name, terms: vec![] });
+                            edits.push("add-record".into());
+                        }
+                    }
+                    _ => {}
+                }
+            }
+            full.ann_calls = full.canonical_ann_calls();
+            let (mut old, mut new) = match which {
+                0 => (bare, full),
+                1 => (full, edited),
+                2 => (bare, edited),
+                _ => (edited, bare),
+            };
+            old.ann_calls = old.canonical_ann_calls();
+            new.ann_calls = new.canonical_ann_calls();
+            Case { old, new, edits, path: PathSel::Builder }
+        })
+        .boxed()
+}
+
 fn strategy(tier: Tier) -> BoxedStrategy<Case> {
-    prop_oneof![12 => small_strategy(tier), 1 => wide_record_strategy()].boxed()
+    prop_oneof![24 => small_strategy(tier), 2 => wide_record_strategy(), 1 => termless_strategy()].boxed()
 }
 
 fn small_strategy(tier: Tier) -> BoxedStrategy<Case> {
@@ -603,7 +662,7 @@ impl Property for C18 {
         "C18"
     }
     fn rule(&self) -> String {
-        "Generated: a base fact set (both ontologies built through own v3 / v2 / v1 bytes, the as_bytes round trip or JAX files; obsolete terms, replacements to existing and to non-existing ids, records of all kinds) and an edit script of 0-4 edits out of 15 kinds (rename term, add/remove parent link, flip obsolete, set replacement to an existing / non-existing id, clear replacement, change replacement between two ids that are not terms, add/remove term, add/remove/rename record, add/remove link); one case in thirteen has 34-72 terms and per kind a record directly on >= 31 of them, with links added / removed at the lowest id, the highest id or in between, plus a leaf term with >= 31 direct parents whose parent list is edited the same way. Oracle: the difference computed on the two fact sets: added/removed id sets per entity kind; changed terms with exact name pair, added/removed parent sets, obsolete pair, replacement id pair; changed records with name pair, added/removed terms, n_terms; every list free of duplicates; compare(new,old) is the mirror image; compare(o,o) reports nothing and compare(o, roundtrip(o)) exactly the names the binary format cuts at 255 bytes (text path: names up to 300 bytes; one rename in three extends the old name, so that long names share a long prefix, one in three only swaps the ASCII case of its letters). evaluations = comparisons. Non-trivial = the two fact sets differ; every edit kind must occur as a single-edit script in a run; distinct by hash of the case.".into()
+        "Generated: a base fact set (both ontologies built through own v3 / v2 / v1 bytes, the as_bytes round trip or JAX files; obsolete terms, replacements to existing and to non-existing ids, records of all kinds) and an edit script of 0-4 edits out of 15 kinds (rename term, add/remove parent link, flip obsolete, set replacement to an existing / non-existing id, clear replacement, change replacement between two ids that are not terms, add/remove term, add/remove/rename record, add/remove link); one case in thirteen has 34-72 terms and per kind a record directly on >= 31 of them, with links added / removed at the lowest id, the highest id or in between, plus a leaf term with >= 31 direct parents whose parent list is edited the same way. One case in 27 compares ontologies of which one or both have no terms at all but carry records (Builder: add_gene / add_*_disease only). Oracle: the difference computed on the two fact sets: added/removed id sets per entity kind; changed terms with exact name pair, added/removed parent sets, obsolete pair, replacement id pair; changed records with name pair, added/removed terms, n_terms; every list free of duplicates; compare(new,old) is the mirror image; compare(o,o) reports nothing and compare(o, roundtrip(o)) exactly the names the binary format cuts at 255 bytes (text path: names up to 300 bytes; one rename in three extends the old name, so that long names share a long prefix, one in three only swaps the ASCII case of its letters). evaluations = comparisons. Non-trivial = the two fact sets differ; every edit kind must occur as a single-edit script in a run; distinct by hash of the case.".into()
     }
     fn assumptions(&self) -> Vec<String> {
         vec!["'replacement' of a term is the replacement id stored with it (replacement_id), whether or not that id is a term of the same ontology".into()]
@@ -618,7 +677,7 @@ impl Property for C18 {
         vec![
             "nontrivial", "single:rename-term", "single:add-parent", "single:remove-parent", "single:flip-obsolete", "single:set-replacement-existing", "single:set-replacement-dangling",
             "single:clear-replacement", "single:add-term", "single:remove-term", "single:add-record", "single:remove-record", "single:rename-record", "single:add-link", "single:remove-link",
-            "single:change-replacement-dangling-to-dangling", "name-longer-than-255-bytes", "bulk>65535-terms", "replacement-id-0", "record-with-more-than-30-terms-on-both-sides-changed", "term-with-more-than-30-parents-on-both-sides-changed",
+            "single:change-replacement-dangling-to-dangling", "name-longer-than-255-bytes", "bulk>65535-terms", "replacement-id-0", "record-with-more-than-30-terms-on-both-sides-changed", "term-with-more-than-30-parents-on-both-sides-changed", "ontology-without-terms",
         ]
     }
     fn run_generated(&self, tier: Tier, seed: u64, n: u64, stats: &mut Stats) -> Option<(Value, Failure)> {
